@@ -128,6 +128,21 @@ func dedupeSlice[S ~[]E, E any](x S, cmp func(a, b E) bool) S {
 	return result
 }
 
+// attrsSortedUnique reports whether kvps is already in ascending key
+// order without duplicates (and without nil entries), i.e. whether
+// serializeAttrs has nothing to rearrange.
+func attrsSortedUnique(kvps Attrs) bool {
+	for i, a := range kvps {
+		if a == nil {
+			return false
+		}
+		if i > 0 && kvps[i-1].Key() >= a.Key() {
+			return false
+		}
+	}
+	return true
+}
+
 // serializeAttrs returns an error object if it's found in the given Attrs.
 //
 // The caller can do something with the object, For instance, printImpl
@@ -136,7 +151,13 @@ func serializeAttrs(pc *PrintCtx, kvps Attrs) (err error) { //nolint:revive
 	prefix := pc.prefix
 	inGroupedMode := pc.inGroupedMode
 
-	if pc.dedupeAttrs {
+	if pc.dedupeAttrs && !attrsSortedUnique(kvps) {
+		// Sort and de-duplicate a copy, never the slice itself: it may belong
+		// to the caller (the members of a Group, the Attrs handed to WriteThru,
+		// a logger-level group) and be read or printed by other goroutines at
+		// the same time.
+		kvps = append(make(Attrs, 0, len(kvps)), kvps...)
+
 		// stable: among equal keys the original order decides which one is kept
 		slices.SortStableFunc(kvps, func(a, b Attr) int {
 			if a == nil {
